@@ -28,7 +28,7 @@ ASSUMPTIONS = ['strings are not capped by the property; they enter the bound B o
                'known findings are keyed by the producing site, so a new unguarded site is still reported']
 REAL = ['smartquery.*', 'regex (benign patterns)']
 STUB = ['host (supplies boundary containers, observes them from outside)']
-REACH_PROBES = ('adder_refused_at_cap', 'adder_accepted_below_cap', 'refused_then_judged', 'len_9999_to_10000',
+REACH_PROBES = ('host_calls_stored_lambda', 'adder_refused_at_cap', 'adder_accepted_below_cap', 'refused_then_judged', 'len_9999_to_10000',
                 'growth_chain', 'oversize_seen', 'dict_at_cap', 'list_at_cap', 'pop_then_push_at_boundary')
 
 SIZES = [0, 1, 9998, 9999, 10000, 10001]
@@ -44,6 +44,8 @@ def _world(r):
     names['e'] = []
     names['st'] = r.choice(['a b', 'ab', 'a,b,c'])
     names['sm'] = {'m': [['a', 1]]}
+    names['k3'] = 3             # a host int (not a Decimal literal)
+    names['hl'] = {'range': r.choice([101, 150])}
     return {'names': names, 'host_fns': []}
 
 
@@ -66,7 +68,15 @@ def _gen_op(r, model):
     te, obj = r.choice(tg)
     n = len(obj)
     is_list = isinstance(obj, list)
-    k = weighted(r, [('add', 8), ('remove', 3), ('grow', 5), ('derive', 4), ('read', 1)])
+    k = weighted(r, [('add', 8), ('remove', 3), ('grow', 5), ('derive', 4), ('read', 1), ('hostcall', 1.2)])
+    if k == 'hostcall':
+        if getattr(model.host.get('adder'), '_sim_kind', '') == 'lambda' and r.random() < 0.7:
+            return ['hostcall', 'adder', [['num', '5']]], 'hostcall'
+        how = r.choice(['push', 'insert', 'set'])
+        body = {'push': ['call', 'push', [te, ['name', 'v']], 'plain'],
+                'insert': ['call', 'insert', [te, ['num', '0'], ['name', 'v']], 'plain'],
+                'set': ['call', '__setitem__', [te, ['str', 'hk'] if not is_list else ['num', '0'], ['name', 'v']], 'plain']}[how]
+        return ['assign', 'adder', ['lambda', ['v'], body]], 'define'
     val = r.choice([['num', '7'], ['str', 'v'], ['list', [['num', '1']]], ['name', 'x']])
     if k == 'add':
         if is_list:
@@ -106,7 +116,7 @@ def _gen_op(r, model):
         return (['del', te, key], 'del') if r.random() < 0.6 else (['call', 'remove', [te, key], gen.sugar(r, 2)], 'remove')
     if k == 'grow':
         g = weighted(r, [('xdouble', 5), ('xplus', 2), ('sdouble', 4), ('split', 3), ('mapstr', 1.5), ('matchall', 1.5),
-                         ('reduce', 1.5), ('bigplus', 2), ('bigshort', 2), ('nestop', 1), ('xmul', 1)])
+                         ('reduce', 1.5), ('bigplus', 2), ('bigshort', 2), ('nestop', 1), ('xmul', 2.5)])
         if g == 'xdouble':
             if r.random() < 0.4:
                 return ['block', [['short', 'x', '+=', ['name', 'x']]] * 4], 'grow'
@@ -135,7 +145,12 @@ def _gen_op(r, model):
         if g == 'bigshort':
             return ['short', 'big', '+=', r.choice([['name', 'x'], ['list', [['num', '1']]]])], 'grow'
         if g == 'xmul':
-            return ['short', 'x', '*=', ['num', '3']], 'grow'
+            # multiplication never repeats a list - whatever the type of the multiplier
+            tgt = r.choice(['x', 'hl', 'hl'])
+            mult = r.choice([['num', '3'], ['name', 'k3'], ['call', 'len', [['name', tgt]], 'plain'], ['call', 'index_of', [['list', [['num', '7'], ['num', '8'], ['num', '9']]], ['num', '9']], 'plain']])
+            if r.random() < 0.3:
+                return ['setitemop', ['list', [['name', tgt]]], ['num', '0'], '*=', mult], 'grow'
+            return ['short', tgt, '*=', mult], 'grow'
         return ['setitemop', ['name', 'nest'], ['num', '0'], '+=', ['list', [['num', '1'], ['num', '2']]]], 'grow'
     if k == 'derive':
         src = te
@@ -165,6 +180,13 @@ def generate(seed, tier):
     ops = []
     for _ in range(rc.randint(4, 16)):
         prog, kind = _gen_op(ro, model)
+        if kind == 'hostcall':
+            ops.append({'op': 'hostcall', 'fn': prog[1], 'kind': kind})
+            try:
+                model.call_value(model.host[prog[1]], [5])
+            except Exception:
+                pass
+            continue
         ops.append({'op': 'eval', 'prog': prog, 'style': gen.style(S['render']), 'kind': kind})
         out = model.run(prog)
         if out[0] == 'unspec':
@@ -218,6 +240,38 @@ def execute(case, ctx):
 
     for step, op in enumerate(case['ops']):
         ctx.step = step
+        if op['op'] == 'hostcall':
+            # the host itself invokes a lambda a program left in names, outside any eval call: the program's code
+            # still must not grow a container past the cap
+            from ..model import MErr, Unspec
+            from ..world import classify
+            f = W.names.get(op['fn'])
+            mf = W.model.host.get(op['fn'])
+            if not callable(f) or mf is None:
+                continue
+            try:
+                f(5)
+                rk = 'value'
+            except BaseException as e:
+                rk = classify(e)
+            W.model.scopes = [W.model.builtins, W.model.host]
+            try:
+                W.model.call_value(mf, [5])
+                mk = 'value'
+            except MErr as e:
+                mk = e.kind
+            except Unspec:
+                break
+            ctx.probe('host_calls_stored_lambda')
+            ctx.event(step, 'hostcall', rk, mk)
+            if mk == 'lang' and rk != 'lang':
+                ctx.report('missing_error' if rk == 'value' else 'wrong_error_class', 'step %d: the host called the stored lambda %s(5) outside eval: '
+                           'the model demands a ParserError (size cap), the system outcome was %s' % (step, op['fn'], rk), {'kind': 'cap_not_enforced_outside_eval'})
+            a = canon.canon(W.model.host)
+            b = canon.canon(W.names, monitors.M.fn_names)
+            if a != b:
+                ctx.report('names_mismatch', 'step %d: after the host called %s(5) the containers differ from the model' % (step, op['fn']), {'kind': 'names_mismatch'})
+            continue
         src = lang.render(op['prog'], op.get('style', 0))
         rec = monitors.Rec()
         rec.value_hooks = (hook,)
@@ -309,4 +363,4 @@ def simplify(case):
 
 
 def sample(case):
-    return {'world': case['world'], 'ops': [lang.render(o['prog'], 0) for o in case['ops']]}
+    return {'world': case['world'], 'ops': [lang.render(o['prog'], 0) if 'prog' in o else {'host_calls': o['fn']} for o in case['ops']]}
